@@ -239,7 +239,7 @@ def run_check(prop, tier):
             name = s["name"]
             count = s["thorough"] if thorough else s["quick"]
             runs.append((name, count, None, ""))
-            for i, threads in enumerate(s.get("rayon", []) if thorough else s.get("rayon", [])[:1]):
+            for i, threads in enumerate(s.get("rayon", []) if thorough else s.get("rayon", [])[:2]):
                 runs.append((name, max(1, count // 3), {"RAYON_NUM_THREADS": str(threads)}, "-t%s" % threads))
         for (name, count, env, tag) in runs:
             info = run_stream(workdir, name, seed, count, thorough, env=env, tag=tag)
@@ -286,16 +286,25 @@ def run_check(prop, tier):
             if len(samples) < 4 and ops:
                 k = min(len(ops) - 1, 3 + len(samples) * 7)
                 samples.append({"stream": name + tag, "op": ops[k][:600], "impl": impl[k][:300] if k < len(impl) else None})
-        # deterministic across rayon pool sizes: same seed => identical implementation output
+        # deterministic across rayon pool sizes: same seed => same verdicts and same states (the error variant reported
+        # for a batch with several invalid transactions may legitimately differ)
         if cfg.get("compare_rayon"):
-            base = {}
+            norm = lambda l: "err" if l.startswith("err ") else l
+            groups = {}
             for (name, count, env, tag) in runs:
+                if env is None:
+                    continue
                 pth = os.path.join(workdir, name + tag, name + ".impl")
                 if os.path.exists(pth):
-                    base.setdefault((name, count), []).append((tag, hashlib.sha256(open(pth, "rb").read()).hexdigest()))
-            for key, lst in base.items():
-                if len(set(h for _, h in lst)) > 1:
-                    violations.append({"kind": "oracle:rayon-nondeterminism", "stream": key[0], "detail": str(lst)})
+                    groups.setdefault((name, count), []).append((tag, [norm(l) for l in open(pth).read().split("\n")]))
+            for key, lst in groups.items():
+                base_tag, base = lst[0]
+                for tag, lines in lst[1:]:
+                    if lines != base:
+                        k = next((i for i, (x, y) in enumerate(zip(base, lines)) if x != y), min(len(base), len(lines)))
+                        oracle_fail += 1
+                        violations.append({"kind": "oracle:rayon-nondeterminism", "stream": key[0], "line": k,
+                                           "detail": "same seed, RAYON_NUM_THREADS%s vs %s: results differ at line %d: %s | %s" % (base_tag, tag, k, base[k][:200] if k < len(base) else "", lines[k][:200] if k < len(lines) else "")})
 
     # ---- probes: the minimal witnesses of every finding recorded for this property (one process each)
     probe_results = {}
